@@ -63,13 +63,26 @@ _M4A = [
       tiers=("quick", "thorough") if cfg == (13, 3, 3) else ("thorough",))
     for cfg in [(13, 3, 3), (6, 2, 2)]
 ]
-PROPS["C03"]["runs"] += _M4A
-PROPS["C06"]["runs"] += _M4A
+_MISC = [
+    R("lpcm-%d-%d" % (d, c), "pkg/format/rtplpcm", "pkg/format/rtplpcm", ["ZzC03C06LPCM"], params={"DEPTH": d, "CH": c},
+      quick_params={"K": 1, "P": 24}, thorough_params={"K": 2, "P": 24},
+      tiers=("quick", "thorough") if (d, c) in [(16, 2), (24, 1)] else ("thorough",))
+    for d in (8, 16, 24) for c in (1, 2)
+] + [
+    R("simpleaudio", "pkg/format/rtpsimpleaudio", "pkg/format/rtpsimpleaudio", ["ZzC03C06SimpleAudio"]),
+    R("mpegts", "pkg/format/rtpmpegts", "pkg/format/rtpmpegts", ["ZzC03C06MPEGTS"], quick_params={"N": 3, "K": 1}, thorough_params={"N": 4, "K": 1, "MHI": 800}),
+]
+PROPS["C03"]["runs"] += _M4A + _MISC
+PROPS["C06"]["runs"] += _M4A + _MISC
 PROPS["C07"] = {
     "level_text": "Inductive resynchronisation: from an ARBITRARY decoder pre-state (all internal fields symbolic within a small shape, constrained only by the accounting invariant) an intact frame A then an intact frame B are fed; B must come back intact exactly once at its last packet (H264: no later than the first packet of the following frame) with only 'more packets needed' before, and the invariant must be re-established. Any loss/duplication/reordering history leaves the decoder in some such state, so one verdict covers fault sequences of every length. H264, H265, AV1, VP8, VP9, fragmented, KLV.",
     "level_note": 'Trusted: the representation invariant of each decoder (Appendix A of DESIGN.md); pre-state shapes are small (<=2 pending fragments of <=3 bytes, <=1 buffered unit). Outside: MPEG-4 audio, MPEG-1 audio/video, AC-3, M-JPEG; explicit drop/dup/swap enumeration (covered through the inductive state).',
     "runs": codec_runs("ZzC07", quick={"*": {"P": 5}, "rtpvp9": {"P": 14, "MHI": 13}, "rtpklv": {"P": 20, "MHI": 18}}, thorough={"*": {}}),
 }
+PROPS["C07"]["runs"] += [
+    R("mpeg4audio", "pkg/format/rtpmpeg4audio", "pkg/format/rtpmpeg4audio", ["ZzC07MPEG4Audio"], params={"SL": 13, "IL": 3, "IDL": 3},
+      quick_params={"P": 5, "MHI": 8}, thorough_params={"P": 6, "MHI": 10}),
+]
 PROPS["C08"] = {
     "level_text": 'Hostile packets: K arbitrary packets (payload 0..P fully symbolic, any header) from Init through the real decoders: no panic, no loop beyond the unwinding bound, returned frames within the documented maximum, returned buffers never written by later calls (write monitor + native compare), accounting invariant after every call; plus one inductive step at the REAL size caps with length-only buffers (VP8, VP9, AV1, fragmented, KLV).',
     "level_note": 'Outside: M-JPEG, MPEG-4 audio, MPEG-1 audio/video, AC-3 decoders (not yet carried); inductive cap step for H264/H265 (solver timeouts on length-only data, dropped rather than weakened); heap measured as reachable slice lengths.',
@@ -102,6 +115,11 @@ PROPS["C09"] = {
     ],
 }
 
+PROPS["C08"]["runs"] += [
+    R("lpcm-hostile", "pkg/format/rtplpcm", "pkg/format/rtplpcm", ["ZzC08LPCM"]),
+    R("simpleaudio-hostile", "pkg/format/rtpsimpleaudio", "pkg/format/rtpsimpleaudio", ["ZzC08SimpleAudio"]),
+    R("mpegts-hostile", "pkg/format/rtpmpegts", "pkg/format/rtpmpegts", ["ZzC08MPEGTS"]),
+]
 PROPS["C08"]["runs"] += [
     R("mpeg4audio-hostile-%d-%d-%d" % cfg, "pkg/format/rtpmpeg4audio", "pkg/format/rtpmpeg4audio", ["ZzC08MPEG4AudioHist"],
       params={"SL": cfg[0], "IL": cfg[1], "IDL": cfg[2]}, quick_params={"K": 1, "P": 12}, thorough_params={"K": 2, "P": 8},
